@@ -268,15 +268,14 @@ func c11Base32Lower(b []byte) string {
 	return sb.String()
 }
 
-// c11RefFallback: base32 (lower case, no padding) of SHA-256 of the domain.  The specification does
-// not say which form of the domain is hashed: accept the string as given, its Unicode form and its
-// punycode form.
+// c11RefFallback: base32 (lower case, no padding) of SHA-256 of the domain.  The fallback has no
+// decoding step (unlike the basic algorithm, whose first step is "Punycode Decode"): the domain is hashed
+// as it stands in the URL.  The A-label form of a domain written with U-labels is accepted as well (it is
+// what a URL parser that normalises host names hands to the algorithm, and what the cache sees); the
+// Unicode form of a domain written with A-labels is not: no step of the specification produces it.
 func c11RefFallback(domain string) []string {
 	forms := []string{domain}
-	if u, err := idna.Punycode.ToUnicode(domain); err == nil {
-		forms = append(forms, u)
-	}
-	if a, err := idna.Punycode.ToASCII(domain); err == nil {
+	if a, err := idna.Punycode.ToASCII(domain); err == nil && a != domain {
 		forms = append(forms, a)
 	}
 	var out []string
